@@ -13,18 +13,36 @@ pub trait MN: MaybeNan + Clone + Debug + Send + Sync + 'static {
     /// total key: missing -> i128::MIN, otherwise an injective image of the value
     fn key(&self) -> i128;
     fn nn_to_self(x: &Self::NotNan) -> Self;
+    /// exact bit pattern (distinguishes NaN payloads / signs); defaults to the key
+    fn bits(&self) -> i128 {
+        self.key()
+    }
 }
 
 macro_rules! mn_float {
-    ($t:ty, $name:expr) => {
+    ($t:ty, $name:expr, $bits:ty) => {
         impl MN for $t {
             const NAME: &'static str = $name;
             fn mk(missing: bool, k: usize) -> Self {
                 if missing {
-                    <$t>::NAN
+                    // NaNs with distinct payloads and alternating sign: "the same elements" must survive
+                    let nan = <$t>::NAN.to_bits() | ((k % 97 + 1) as $bits);
+                    let v = <$t>::from_bits(nan);
+                    if k % 2 == 1 {
+                        -v
+                    } else {
+                        v
+                    }
+                } else if k % 7 == 5 {
+                    <$t>::INFINITY
+                } else if k % 7 == 6 {
+                    <$t>::NEG_INFINITY
                 } else {
                     k as $t * 1.5 - 2.0
                 }
+            }
+            fn bits(&self) -> i128 {
+                self.to_bits() as i128
             }
             fn key(&self) -> i128 {
                 if self.is_nan() {
@@ -39,8 +57,8 @@ macro_rules! mn_float {
         }
     };
 }
-mn_float!(f64, "f64");
-mn_float!(f32, "f32");
+mn_float!(f64, "f64", u64);
+mn_float!(f32, "f32", u32);
 
 macro_rules! mn_opt_int {
     ($t:ty, $name:expr) => {
@@ -175,8 +193,8 @@ where
         if let Err(i) = guards_intact(&before, &after, &offs, |x, y| x == y) {
             lx.fail("C04/guard-cell-modified", || format!("{}: parent cell {} outside the view changed", desc(), i));
         }
-        let mut lane_before: Vec<i128> = data.iter().map(|x| x.key()).collect();
-        let mut lane_after: Vec<i128> = h.logical().iter().map(|x| x.key()).collect();
+        let mut lane_before: Vec<i128> = data.iter().map(|x| x.bits()).collect();
+        let mut lane_after: Vec<i128> = h.logical().iter().map(|x| x.bits()).collect();
         lane_before.sort();
         lane_after.sort();
         lx.check(lane_before == lane_after, "C04/lane-multiset-changed", || format!("{}: input lane afterwards {:?}", desc(), h.logical()));
@@ -298,6 +316,53 @@ where
     });
 }
 
+/// Values of the not-NaN type produced by its numeric conversions must really be non-missing.
+fn conv_check<A: MN>(lx: &mut Local) -> u64
+where
+    A::NotNan: num_traits::FromPrimitive + num_traits::ToPrimitive + Clone,
+{
+    use num_traits::{FromPrimitive, ToPrimitive};
+    let mut made = 0u64;
+    let mut see = |what: String, v: Option<A::NotNan>, lx: &mut Local| {
+        if let Some(x) = v {
+            made += 1;
+            let back = A::nn_to_self(&x);
+            lx.check(!back.is_nan(), "C04/conversion-yields-missing", || format!("{}: {} produced a not-NaN typed value that is missing", A::NAME, what));
+            // ToPrimitive on a valid value must not panic
+            let r = guarded(|| (x.to_f64(), x.to_i64(), x.to_u64()));
+            lx.check(r.is_ok(), "C04/conversion-panic", || format!("{}: to_f64/to_i64/to_u64 panicked on the value from {}", A::NAME, what));
+        }
+    };
+    for &f in &[0.0f64, 1.0, -1.0, 0.5, 127.0, 128.0, 255.0, 256.0, 300.0, -129.0, 65536.0, 2147483648.0, 4294967296.0, 1e19, -1e19, 1e39, -1e39, f64::MAX, f64::INFINITY, f64::NEG_INFINITY, f64::NAN] {
+        let r = guarded(|| <A::NotNan as FromPrimitive>::from_f64(f));
+        match r {
+            Ok(v) => see(format!("from_f64({:e})", f), v, lx),
+            Err(m) => lx.fail("C04/conversion-panic", || format!("{}: from_f64({:e}) panicked: {}", A::NAME, f, m)),
+        }
+        let r = guarded(|| <A::NotNan as FromPrimitive>::from_f32(f as f32));
+        if let Ok(v) = r {
+            see(format!("from_f32({:e})", f), v, lx);
+        }
+    }
+    for &i in &[0i64, 1, -1, 127, 128, -128, -129, 255, 256, 32767, 32768, 65535, 65536, i32::MAX as i64, i32::MAX as i64 + 1, i64::MAX, i64::MIN] {
+        if let Ok(v) = guarded(|| <A::NotNan as FromPrimitive>::from_i64(i)) {
+            see(format!("from_i64({})", i), v, lx);
+        }
+        if let Ok(v) = guarded(|| <A::NotNan as FromPrimitive>::from_i128(i as i128 * 4)) {
+            see(format!("from_i128({})", i as i128 * 4), v, lx);
+        }
+        if i >= 0 {
+            if let Ok(v) = guarded(|| <A::NotNan as FromPrimitive>::from_u64(i as u64 * 2 + 1)) {
+                see(format!("from_u64({})", i as u64 * 2 + 1), v, lx);
+            }
+            if let Ok(v) = guarded(|| <A::NotNan as FromPrimitive>::from_usize(i as usize)) {
+                see(format!("from_usize({})", i), v, lx);
+            }
+        }
+    }
+    made
+}
+
 fn main() {
     let mut rep = Report::new("C04");
     rep.rule = "case = (element type, length, missing-value mask, stride) for 1-D views inside a sentinel parent; (type, shape, axis, layout, mask) for lanes of n-D arrays; non-trivial = at least one missing and one non-missing element".into();
@@ -327,9 +392,33 @@ fn main() {
         },
     );
 
+    rep.run_sub(
+        "not-nan-conversions",
+        "for each of the 14 element types: every numeric constructor of the not-NaN type (from_f64/f32/i64/i128/u64/usize) at in-range, boundary and out-of-range arguments incl. NaN and infinities: a produced value must be non-missing and usable",
+        (0..14u8).map(|ty| ty),
+        |ty, lx| {
+            lx.nontrivial(true);
+            lx.single(|lx| match *ty {
+                0 => conv_check::<f64>(lx),
+                1 => conv_check::<f32>(lx),
+                2 => conv_check::<Option<u8>>(lx),
+                3 => conv_check::<Option<u16>>(lx),
+                4 => conv_check::<Option<u32>>(lx),
+                5 => conv_check::<Option<u64>>(lx),
+                6 => conv_check::<Option<u128>>(lx),
+                7 => conv_check::<Option<i8>>(lx),
+                8 => conv_check::<Option<i16>>(lx),
+                9 => conv_check::<Option<i32>>(lx),
+                10 => conv_check::<Option<i64>>(lx),
+                11 => conv_check::<Option<i128>>(lx),
+                12 => conv_check::<Option<N32>>(lx),
+                _ => conv_check::<Option<N64>>(lx),
+            });
+        },
+    );
     let thorough = rep.cfg.thorough();
     let mut nd: Vec<NdCase> = Vec::new();
-    let shapes: Vec<Vec<usize>> = if thorough { vec![vec![3, 4], vec![4, 3], vec![2, 3, 2]] } else { vec![vec![3, 4], vec![2, 3, 2]] };
+    let shapes: Vec<Vec<usize>> = if thorough { vec![vec![3, 4], vec![4, 3], vec![1, 3], vec![3, 1], vec![1, 1], vec![2, 1, 2], vec![2, 3, 2]] } else { vec![vec![3, 4], vec![1, 3], vec![3, 1], vec![1, 1], vec![2, 1, 2], vec![2, 3, 2]] };
     for shape in &shapes {
         let d = shape.len();
         let n: usize = shape.iter().product();
@@ -338,7 +427,7 @@ fn main() {
             for l in &layouts {
                 for mask in 0u32..(1 << n) {
                     // 3-D quick tier: masks thinned to those whose low and high halves mirror or differ by one bit-rotation (keeps every per-lane mask)
-                    if d == 3 && !thorough && (mask % 5 != 0) {
+                    if d == 3 && n > 8 && !thorough && (mask % 5 != 0) {
                         continue;
                     }
                     for ty in [0u8, 9] {
